@@ -276,6 +276,10 @@ class ScriptedPeer(PeerBase):
             else:
                 b[-1] ^= 0x55
             return self.send(s, bytes(b), args[0], n, 2, hops=(args[1] if len(args) > 1 else 0))
+        if name == "nowfrag":           # valid answer now, then a lone first fragment of it after a delay (arrives while the socket is idle)
+            keep.append(v)
+            self.send(s, v, 0, n, 1)
+            return self.send(s, v[:self.header_len() if self.framing != "aa55" else 9], args[0], n, 2, hops=(args[1] if len(args) > 1 else 0))
         if name == "badsumlate":        # a corrupted answer after a delay (default half a timeout)
             b = bytearray(v)
             if self.framing == "tcp":
